@@ -70,3 +70,38 @@ func vhEnvChain(d int) []*Env {
 	}
 	return envs
 }
+
+func vhCompileStmt(f func() Stmt) (s Stmt, failed bool) {
+	defer func() {
+		if recover() != nil {
+			s, failed = nil, true
+		}
+	}()
+	return f(), false
+}
+
+// vhRunStmt executes one compiled statement the way the executor does: as env.Code[0] followed by a
+// marker statement.  ok = the statement advanced IP by one, returned the next statement and the same env.
+func vhRunStmt(stmt Stmt, env *Env) (ok bool, panicked bool) {
+	if stmt == nil {
+		return true, false // statement optimised away: nothing to execute
+	}
+	defer func() {
+		if recover() != nil {
+			ok, panicked = false, true
+		}
+	}()
+	hit := false
+	next := func(env *Env) (Stmt, *Env) {
+		hit = true
+		return nil, env
+	}
+	env.Code = []Stmt{stmt, next}
+	env.IP = 0
+	s, e := stmt(env)
+	if e != env || env.IP != 1 || s == nil {
+		return false, false
+	}
+	s(e)
+	return hit, false
+}
